@@ -1,16 +1,19 @@
-import subprocess, re, sys
+"""Development aid (not used by any check): restates proved tie theorems in the property files.
+    python3 tools/gen_prop_ties.py     (after `make` in coq/)"""
+import subprocess, re, sys, tempfile, os
+TMP = tempfile.mkdtemp()
 HDR = '''From Coq Require Import String.
 From PS Require Import Base GFDefs PackDefs StoreDefs MiscDefs StrDefs LangDefs ApiDefs SpecDefs SpecApi.
 From PS Require Import GFProofs MiscProofs CoinProofs PackProofs PackTheorems StoreProofs SeedProofs ApiLemmas.
-From PS Require Import StrProofs CTieBase CTieLang CTiePhrase CTieSplit CTieApi CTieDecode.
+From PS Require Import StrProofs CTieBase CTieLang CTiePhrase CTiePhraseEv CTieSplit CTieApi CTieDecode CTieEncode.
 From PS.Gen Require Import Consts PrivConsts Langs.
 From PS.Gen Require CFuns CApi.
 Local Open Scope N_scope.
 Set Printing Width 110.
 '''
 def typ(name):
-    open('/tmp/w/chk1.v','w').write(HDR + "Check @%s.\n" % name)
-    out = subprocess.run(['coqc','-Q','.','PS','/tmp/w/chk1.v'],stdout=subprocess.PIPE,stderr=subprocess.STDOUT,universal_newlines=True,cwd='/verif/coq').stdout
+    open(os.path.join(TMP, 'chk1.v'),'w').write(HDR + "Check @%s.\n" % name)
+    out = subprocess.run(['coqc','-Q','.','PS',os.path.join(TMP, 'chk1.v')],stdout=subprocess.PIPE,stderr=subprocess.STDOUT,universal_newlines=True,cwd='/verif/coq').stdout
     i = out.index(name+"\n")
     body = out[i+len(name)+1:]
     body = body.strip()
@@ -20,12 +23,17 @@ def typ(name):
 IMPORTS = '''
 (* ---- the tie to the code: src/polyseed.c as TRANSLATED on this run (Gen/CApi.v) ---- *)
 From Coq Require Import String.
-From PS Require Import Base GFDefs PackDefs StoreDefs MiscDefs StrDefs LangDefs ApiDefs GFProofs PackProofs StoreProofs CTieBase CTieLang CTiePhrase CTieSplit CTieApi CTieDecode.
+From PS Require Import Base GFDefs PackDefs StoreDefs MiscDefs StrDefs LangDefs ApiDefs GFProofs PackProofs StoreProofs CTieBase CTieLang CTiePhrase CTiePhraseEv CTieSplit CTieApi CTieDecode CTieEncode.
 From PS.Gen Require Import Consts PrivConsts Langs.
 From PS.Gen Require CFuns.
 From PS.Gen Require CApi.
 '''
 PLAN = {
+ 'C01': [('api_encode','tie_encode','polyseed_encode as translated against the mirror step: the phrase written is the words of the 16 coefficients joined by the separator, composed when the language asks for it'),
+         ('api_decode_explicit','tie_decode_explicit','polyseed_decode_explicit as translated against the mirror step')],
+ 'C03': [('api_encode','tie_encode','polyseed_encode as translated: coefficient 0 is the stored check value, coefficient 1 carries the coin, word i of the output is word number coefficient i of the list')],
+ 'C17': [('write_str','tie_write_str','write_str as translated: the bytes of the word at the offset, the offset advanced by its length - while it fits the buffer'),
+         ('api_encode','tie_encode','polyseed_encode as translated: every write stays inside str_tmp exactly when the joined phrase is shorter than POLYSEED_STR_SIZE (the case C17_bounds shows is the only one), and the length returned is the length written')],
  'C04': [('keygen','tie_keygen','polyseed_keygen as translated: exactly one call of the injected KDF, with the 32-byte secret buffer, the salt "POLYSEED key" 00 FF FF FF | coin | birthday | features | 0000 (little-endian 32-bit fields), 10000 iterations and the caller\'s key size; the key is what that call wrote')],
  'C06': [('api_load','tie_load','polyseed_load as translated against the mirror step: status, block, *seed_out, events - for every 32-byte buffer and either allocation outcome'),
          ('api_store','tie_store','polyseed_store as translated = the storage layout, for every canonical struct')],
@@ -46,7 +54,9 @@ PLAN = {
          ('api_decode','tie_decode','polyseed_decode as translated: the allocation and free events of every exit')],
  'C16': [('api_free','tie_free','polyseed_free as translated: MEMZERO_PTR of the whole struct immediately before FREE'),
          ('api_decode','tie_decode','polyseed_decode as translated: str_tmp, words and poly are wiped on every exit'),
-         ('api_crypt','tie_crypt','polyseed_crypt as translated: poly, mask and pass_norm are wiped')],
+         ('api_crypt','tie_crypt','polyseed_crypt as translated: poly, mask and pass_norm are wiped'),
+         ('idx','tie_phrase_decode_ev','polyseed_phrase_decode translated with its events: exactly one wipe of idx on every return, the MULT_LANG one included; otherwise it is the pure translation tied in C09'),
+         ('api_encode','tie_encode','polyseed_encode as translated: poly and str_tmp are wiped')],
  'C18': [('api_create','tie_create','polyseed_create as translated: one allocation, one clock read, one request for 19 random bytes - all through the table - and the secret is those bytes'),
          ('api_keygen','tie_keygen','polyseed_keygen as translated: the key is what the injected KDF wrote')],
 }
